@@ -11,6 +11,7 @@ import numpy as np
 
 from mc import families as F
 from mc import gf2
+from mc import session
 
 PROPERTY = 'C04'
 LEVEL = 'exploration'
@@ -39,10 +40,15 @@ def cases(tier, seed):
         out.append(dict(cfg, part='full'))
     for cfg in F.configs(b['struct_n'], l_max=b['struct_l_max'], min_count=1):
         out.append(dict(cfg, part='structured', pair_cap=b['pair_cap']))
+    struct = [c for c in out if c['part'] == 'structured']
+    out += [{'part': 'session', 'cfgs': [dict(c, pair_cap=20) for c in seq]}
+            for seq in session.interleave_by_size(struct, 2)]
     return out
 
 
 def eval_case(cfg):
+    if cfg.get('part') == 'session':
+        return session.run(cfg['cfgs'], eval_case, F.cfg_label)
     res = {'evals': 0, 'nontrivial': 0, 'violations': [], 'outcomes': [], 'samples': [], 'extra': {}}
     if F.known_invalid(cfg):
         res['skipped'] = 1
